@@ -1700,6 +1700,24 @@ def dwarf_cases():
                             dw['units'] = [first['units'][0], dw['units'][0]]
                         out.append(synth(opt, 'dw_op|nested|%s|outer=0x%x|%s-unit' % (nname, outer, 'second' if second else 'first'), mark,
                                          dw_elf(dw, cls=cls, machine=m)))
+        # units of both DWARF formats in one file: an operand whose width follows the format (DW_OP_call_ref, [GNU_]implicit_pointer) is read
+        # with the format of its own unit, whichever unit was dumped first
+        if mname == 'EM_X86_64':
+            for code in (0x9a, 0xa0, 0xf2):
+                name, spec = X.OPS[code]
+                if name not in DW_OP_name2opcode:
+                    continue
+                for f1, f2 in ((64, 32), (32, 64)):
+                    try:
+                        b, _exp = X.encode_op([code, [OP_SAMPLE[k] for k in spec]], True, f2, asz)
+                    except X.EncodeError:
+                        continue
+                    dw = dw_unit(ab, [{'b': b + b'\x93\x08\x30\x9f\x93\x04'}], fmt=f2, addr_size=asz, le=True, grandchild=True)
+                    first = dw_unit(ab, [{'b': b'\x30\x9f'}], fmt=f1, addr_size=asz, le=True, grandchild=True)
+                    dw['abtabs'] = [dw['abtabs'][0], first['abtabs'][0]]
+                    first['units'][0]['abtab'] = 1
+                    dw['units'] = [first['units'][0], dw['units'][0]]
+                    out.append(synth(opt, 'dw_op|mixed-formats|%s|%d-bit-unit-after-%d-bit-unit' % (name, f2, f1), mark, dw_elf(dw, cls=cls, machine=m)))
         # the register-name table itself, through DW_OP_regx
         for n, rname in enumerate(tab):
             if rname == '<none>' or n < 32:
